@@ -2,6 +2,7 @@ package main
 
 import (
 	"fmt"
+	"go/token"
 	"go/types"
 	"strings"
 
@@ -154,6 +155,15 @@ func checkLayouts(p *Prog, r *Report, rule string) {
 
 func c01(c *Ctx) {
 	p, r := c.K1(), c.R
+	if !c.importing {
+		// R7: the entry jump lands intact — protection opened and closed over exactly the pages the write touches (C14.W3, W5)
+		importSibling(c, "C14", "C01.R7", func(rule string) bool { return rule == "C14.W3" || rule == "C14.W5" })
+		// R8: the replacement that runs is the most recent one — Apply drops an earlier stub, and a stub given after an
+		// Apply is installed (C12.R2)
+		importSibling(c, "C12", "C01.R8", func(rule string) bool { return rule == "C12.R2" })
+		// R9: a stubbed nil result reaches the caller as the typed zero value of every nilable kind (C09.R1)
+		importSibling(c, "C09", "C01.R9", func(rule string) bool { return rule == "C09.R1" })
+	}
 	r.Expl = "Structural clauses the mocking mechanism rests on (the ABI behaviour itself is a run-time fact and is not decided): the word embedded in the entry jump is the func value's data word obtained from the reflect.Value of the replacement (not its code pointer); on every successful path of the installer the patch object holding the replacement is stored in the package-level table under the patched address (the only GC root for a pointer hidden in machine code), and entries are deleted only after their bytes were restored; the patched address is the target's entry (Value.Pointer, the generic-wrapper scan result, or a symbol address) with no arithmetic; every struct that is cast over a runtime object agrees with the toolchain's real type on the offsets and sizes of the fields it touches (amd64 and arm64); the entry-jump template clobbers only the closure-context register (shared with C15's abstract interpretation). (R6) a guard that a mocker records is switched on before the mocker returns, and the wrapper around a patch guard forwards Apply to the patch."
 	r.RuleText = "one obligation per (rule, call site / store / mirror field)"
 	r.Floor("C01.R2", 2)
@@ -301,6 +311,31 @@ func c01(c *Ctx) {
 			})
 			r.Check(okSrc, "C01.R4", "patch origin in "+shortName(fs.Fn), p.Pos(posOf(fs.Store)), atomsString(ats),
 				"the patched address is computed ("+atomsString(ats)+") instead of being the target's entry address: the jump lands inside or beside the function")
+			// an address that comes out of a lookup that can fail (the inner function of an ABI wrapper) replaces the entry only
+			// where the lookup is known to have succeeded and to have found something (non-zero)
+			if ex, isEx := resolveLocal(fs.Store.Val).(*ssa.Extract); isEx {
+				if cl, isCall := ex.Tuple.(*ssa.Call); isCall && errIndex(cl.Call.Signature()) >= 0 {
+					nonZero := false
+					for _, g := range guardsAt(fs.Store.Block()) {
+						bo, ok := g.Cond.(*ssa.BinOp)
+						if !ok {
+							continue
+						}
+						for _, side := range [][2]ssa.Value{{bo.X, bo.Y}, {bo.Y, bo.X}} {
+							if resolveLocal(side[0]) != ssa.Value(ex) {
+								continue
+							}
+							if c, isC := constInt(side[1]); isC && c == 0 {
+								if (bo.Op == token.NEQ && g.Pol) || (bo.Op == token.EQL && !g.Pol) || (bo.Op == token.GTR && g.Pol && side[0] == bo.X) {
+									nonZero = true
+								}
+							}
+						}
+					}
+					r.Check(errNilGuarded(fs.Store.Block(), cl) && nonZero, "C01.R4", "looked-up patch origin used only when found in "+shortName(fs.Fn), p.Pos(posOf(fs.Store)), "err == nil and address != 0 known at the store",
+						"the address of the wrapped function replaces the entry although the lookup failed or found nothing: the jump is written at address 0 or a stale address and the process crashes")
+				}
+			}
 			// and Pointer() is taken of the origin value, not of the replacement
 			for _, a := range ats {
 				cl, ok := a.V.(*ssa.Call)
@@ -321,6 +356,7 @@ func c01(c *Ctx) {
 	// ---- R6 a freshly built guard is switched on
 	r.Floor("C01.R6", 3)
 	checkGuardActivated(p, r, "C01.R6")
+	checkGuardReplacedOnSuccess(p, r, "C01.R6")
 	// ---- R5 layout mirrors (both architectures)
 	checkLayouts(p, r, "C01.R5")
 	if k2, err := c.K2(); err == nil {
@@ -423,4 +459,96 @@ func checkGuardActivated(p *Prog, r *Report, rule string) {
 		}
 		r.Check(fwd, rule, "patch guard wrapper "+shortName(f)+" forwards activation", p.Pos(f.Pos()), "reaches (*patch.Guard).Apply", "the guard wrapper's Apply does not reach the patch's activation: nothing is ever written")
 	}
+}
+
+// checkGuardReplacedOnSuccess: the guard a mocker has recorded is replaced only by the outcome of a successful
+// construction — a store into a guard field whose value is built from a result of a call that also returns an error sits
+// on the err == nil continuation of that call. (On the failing path the old guard must survive: it is the only handle
+// through which Cancel/Reset can still restore the bytes of the mock that is in place.)
+func checkGuardReplacedOnSuccess(p *Prog, r *Report, rule string) int {
+	n := 0
+	for _, f := range p.FuncsIn("") {
+		if f.Blocks == nil {
+			continue
+		}
+		eachInstr(f, func(i ssa.Instruction) {
+			st, ok := i.(*ssa.Store)
+			if !ok {
+				return
+			}
+			fa, ok := st.Addr.(*ssa.FieldAddr)
+			if !ok {
+				return
+			}
+			fv := fieldVar(fa.X.Type(), fa.Field)
+			if fv == nil || isNilConst(st.Val) {
+				return
+			}
+			nt, isNamed := fv.Type().(*types.Named)
+			if !isNamed || nt.Obj().Pkg() == nil || nt.Obj().Pkg().Path() != Mod {
+				return
+			}
+			it, isI := nt.Underlying().(*types.Interface)
+			if !isI {
+				return
+			}
+			has := map[string]bool{}
+			for k := 0; k < it.NumMethods(); k++ {
+				has[it.Method(k).Name()] = true
+			}
+			if !has["Apply"] || !has["Cancel"] {
+				return
+			}
+			if _, isAl := fa.X.(*ssa.Alloc); isAl {
+				return
+			}
+			// fallible producers the stored value is built from
+			var producers []*ssa.Call
+			seen := map[ssa.Value]bool{}
+			var walk func(v ssa.Value, depth int)
+			walk = func(v ssa.Value, depth int) {
+				v = resolveLocal(v)
+				if v == nil || seen[v] || depth > 5 {
+					return
+				}
+				seen[v] = true
+				switch x := v.(type) {
+				case *ssa.Extract:
+					if cl, ok := x.Tuple.(*ssa.Call); ok && errIndex(cl.Call.Signature()) >= 0 {
+						producers = append(producers, cl)
+					}
+				case *ssa.Call:
+					for _, a := range x.Call.Args {
+						walk(a, depth+1)
+					}
+				case *ssa.MakeInterface:
+					walk(x.X, depth+1)
+				case *ssa.ChangeInterface:
+					walk(x.X, depth+1)
+				case *ssa.Phi:
+					for _, e := range x.Edges {
+						walk(e, depth+1)
+					}
+				case *ssa.Alloc:
+					// a literal built in place: what its fields are set to
+					for _, ref := range *x.Referrers() {
+						if fa2, ok := ref.(*ssa.FieldAddr); ok {
+							for _, r2 := range *fa2.Referrers() {
+								if s2, ok := r2.(*ssa.Store); ok && s2.Addr == ssa.Value(fa2) {
+									walk(s2.Val, depth+1)
+								}
+							}
+						}
+					}
+				}
+			}
+			walk(st.Val, 0)
+			for _, cl := range producers {
+				n++
+				r.Check(errNilGuarded(st.Block(), cl), rule, "guard of "+shortName(f)+" replaced only after "+calleeName(cl.Common())+" succeeded", p.Pos(posOf(st)), "store on the err == nil continuation",
+					"the mocker's guard is overwritten before the error of the call that produced the new one is tested: when that call is refused (the target is still mocked by the earlier apply) the handle to the installed patch is lost, and Cancel/Reset silently restore nothing")
+			}
+		})
+	}
+	return n
 }
